@@ -69,7 +69,10 @@ class LiteralEvaluator:
 			right = elements[index + 1]
 			index += 2
 			try:
-				if isinstance(left, float) or isinstance(right, float) or op == '/':
+				if isinstance(left, int) and isinstance(right, int) and op == '/':
+					# XXX 整数同士の除算はfloatを経由すると丸め誤差が生じるため、整数のまま演算
+					left = self._calc(left, op, right)
+				elif isinstance(left, float) or isinstance(right, float) or op == '/':
 					left = self._calc(float(left), op, float(right))
 				elif isinstance(left, int) and isinstance(right, int):
 					left = int(self._calc(left, op, right)) if op in LiteralEvaluator.ArthmeticOps else self._bitwise(left, op, right)
